@@ -17,7 +17,6 @@ Added after the seeded-change rounds (notes/C20.md, "Strengthening after seeded 
   (int, numpy int64 / int32) T, P, V, n, Tc, Pc, a, and gas_phase given as 0 / 1 / numpy bool.
 """
 import copy
-import functools
 import itertools
 import json
 import math
@@ -438,60 +437,9 @@ def _k_defaults(case, ctx):
 
 
 # ------------------------------------------------------------------ independent model of every getter
-@functools.lru_cache(maxsize=None)
-def _roots(a, b, rt, p_pa):
-    """Exact-arithmetic roots of the cubic (harness-side memo of the reference; read-only)."""
-    roots, margin = E.vdw_roots(a, b, rt, p_pa)
-    return tuple(roots), margin
-
-
-def _ref_call(eos, a, b, R, getter, kw):
-    """Reference value of getter(**kw) with the documented defaults filled in.
-
-    Returns (expected, rtol, atol) or None when the number of real roots is not decidable (nearly double root).
-    Units as documented: T / K, P / bar, V / m3, n / mol."""
-    T = float(kw.get('T', 298.15))
-    P = float(kw.get('P', 1.0))
-    V = float(kw.get('V', R * 298.15 / 1e5))
-    n = float(kw.get('n', 1.0))
-    gp = bool(kw.get('gas_phase', True))
-    if eos == 'ideal':
-        if getter == 'get_V':
-            return n * R * T / (P * 1e5), 1e-12, 0.0
-        if getter == 'get_P':
-            return n * R * T / V / 1e5, 1e-12, 0.0
-        if getter == 'get_T':
-            return P * 1e5 * V / (n * R), 1e-12, 0.0
-        if getter == 'get_n':
-            return P * 1e5 * V / (R * T), 1e-12, 0.0
-        raise ValueError(getter)
-    if getter in ('get_Vm', 'get_V', 'get_n'):
-        roots, margin = _roots(a, b, R * T, P * 1e5)
-        if margin < 1e-6:
-            return None
-        vm = roots[-1] if gp else roots[0]
-        if getter == 'get_Vm':
-            return vm, 1e-8, 0.0
-        if getter == 'get_V':
-            return n * vm, 1e-8, 0.0
-        return V / vm, 1e-8, 0.0
-    if getter == 'get_P':
-        vm = V / n
-        return (R * T / (vm - b) - a / vm ** 2) / 1e5, 0.0, 1e-12 * _terms(a, b, R, T, vm) / 1e5
-    if getter == 'get_T':
-        vm = V / n
-        return (P * 1e5 + a / vm ** 2) * (vm - b) / R, 1e-12, 0.0
-    if getter == 'get_Vc':
-        return 3.0 * n * b, 1e-12, 0.0
-    if getter == 'get_Tc':
-        return 8.0 * a / (27.0 * b * R), 1e-12, 0.0
-    if getter == 'get_Pc':
-        return a / (27.0 * b * b) / 1e5, 1e-12, 0.0
-    raise ValueError(getter)
-
-
-def _crit_ab(tc, pc, R):
-    return 27.0 * (R * tc) ** 2 / (64.0 * pc * 1e5), R * tc / (8.0 * pc * 1e5)
+_roots = E.roots_memo
+_ref_call = E.getter_value
+_crit_ab = E.from_critical_ab
 
 
 def _crit_of(a, b, R):
